@@ -114,7 +114,7 @@ def make_variant(kind: str, rng: random.Random) -> dict:
     elif kind.startswith("mbi"):
         v.update(family=core.pick(rng, MBI_FAMILIES), keysource=core.pick(rng, ["OTP", "KEYSTORE"]),
                  hmac=rng.randrange(2), app_len=core.pick(rng, [256, 1024, 3000]), cert=rng.randrange(4),
-                 shared_cfg=rng.random() < 0.5)
+                 shared_cfg=rng.random() < 0.5, reloaded=rng.random() < 0.4)
     elif kind == "otfad_keyblob":
         v.update(supply=_subset(rng, ["key", "counter"], [0, 0, 0, 1]), byte_swap=rng.random() < 0.5,
                  dlen=core.pick(rng, [64, 512, 1024]), kek=rng.randrange(2), container=rng.random() < 0.4)
@@ -392,7 +392,7 @@ class MbiArt(Art):
 
     def option_class(self):
         v = self.var
-        return f"{v['family']} {v['keysource']} app={v['app_len']} shared_cfg={v.get('shared_cfg', False)}"
+        return f"{v['family']} {v['keysource']} app={v['app_len']} shared_cfg={v.get('shared_cfg', False)} reloaded={v.get('reloaded', False)}"
 
     def construct(self):
         from spsdk.image.keystore import KeySourceType, KeyStore
@@ -434,6 +434,15 @@ class MbiArt(Art):
             cls = get_mbi_class(cfg)
             check_config(cfg, cls.get_validation_schemas(v["family"]), search_paths=[d])
             mbi = cls()
+            if v.get("reloaded"):
+                # the image object served ANOTHER build before (loaded, exported), then the configuration of this build is
+                # loaded into the same object: what the earlier build chose for itself must not serve this one
+                pre = dict(cfg)
+                pre["inputImageFile"] = _write(os.path.join(d, "app_of_the_previous_build.bin"), rb(self.rng, v["app_len"]))
+                mbi.load_from_config(pre, search_paths=[d])
+                mbi.export()
+                self.invented.add("ctr_init_vector_of_the_previous_load")
+                self.see("ctr_init_vector_of_the_previous_load", mbi.ctr_init_vector, "attr@previous-load")
             mbi.load_from_config(cfg, search_paths=[d])
             self.obj = mbi
 
